@@ -19,9 +19,41 @@ type C17Case struct {
 	StopOnError bool `json:",omitempty"`
 }
 
+// addNamesakes: two workloads of different namespaces share their NAME and a port name, with different numbers, and an
+// egress rule open to all namespaces names that port. Synthesised replicas of both are called <name>-1; bare pods of a
+// controller are not - what is computed per pod must not be remembered per pod NAME.
+func addNamesakes(t *rapid.T, a *World) (idx int, ok bool) {
+	if len(a.Namespaces) < 2 || len(a.ANPs) > 0 || a.BANP != nil {
+		return 0, false
+	}
+	n1, n2 := a.Namespaces[0].Name, a.Namespaces[1].Name
+	for _, x := range a.Workloads {
+		if x.Name == "twinned" {
+			return 0, false
+		}
+	}
+	pn := rapid.SampledFrom(portNames).Draw(t, "nsakeport")
+	k1 := rapid.SampledFrom([]string{"Deployment", "StatefulSet", "ReplicaSet", "DaemonSet"}).Draw(t, "nsakekind")
+	a.Workloads = append(a.Workloads,
+		Workload{Ns: n1, Name: "twinned", Kind: k1, Replicas: 1, Labels: map[string]string{"app": "x1"}, Ports: []CPort{{Name: pn, Number: 8080}}},
+		Workload{Ns: n2, Name: "twinned", Kind: "Deployment", Replicas: 1, Labels: map[string]string{"app": "x2"}, Ports: []CPort{{Name: pn, Number: 9090}}})
+	src := a.Namespaces[rapid.IntRange(0, len(a.Namespaces)-1).Draw(t, "nsakesrc")].Name
+	a.NPs = append(a.NPs, NetPol{Ns: src, Name: "np-namesakes", PolicyTypes: []string{"Egress"},
+		Egress: []Rule{{Peers: []Peer{{NsSel: &Selector{}}}, Ports: []PPort{{PortNam: pn}}}}})
+	return len(a.Workloads) - 2, true
+}
+
 func genC17(t *rapid.T) *C17Case {
 	a := genAnyWorld(t)
+	nsake, hasNsake := -1, false
+	if rapid.IntRange(0, 4).Draw(t, "namesakes") == 0 {
+		nsake, hasNsake = addNamesakes(t, a)
+	}
 	b := a.Clone()
+	if hasNsake {
+		// one of the two namesakes is re-expressed as bare pods of a controller (unique pod names)
+		b.Workloads[nsake].Kind = "Owned:ReplicaSet"
+	}
 	for i := range b.Workloads {
 		if rapid.IntRange(0, 2).Draw(t, fmt.Sprintf("re%d", i)) > 0 {
 			b.Workloads[i].Kind = rapid.SampledFrom(allKinds).Draw(t, fmt.Sprintf("k%d", i))
